@@ -326,3 +326,24 @@ PROPS["C20"] = {
                  R("TestPropCarbonRoute", 10000, shards=6, timeout=2400), R("TestPropGrafanaNetRoute", 600, shards=3, timeout=2400),
                  R("TestPropInterpolation", 200000, shards=2, timeout=2400)],
 }
+
+PROPS["C05"] = {
+    "pkg": "c05", "level": "exploration",
+    "rule": ("bufwriter (harness owns the schedule): destination.NewWriter over a recording writer, buffer size 1..4096, rapid state machine of Write(p) with "
+             "|p| in {0, 1 (the newline), < size, exactly filling, overflowing by 0-2, up to 4x size} and Flush() at arbitrary points - exactly the call "
+             "patterns Conn.HandleData produces; oracle: bytes at the sink are always a prefix of the bytes written, sink+buffered = written, "
+             "Buffered+Available = size, after the final flush sink == input. healthy_conn (end to end): a real destination (destination.New + Run) "
+             "connected to a healthy loopback endpoint; rapid draws iobuf 1..4096, connbuf 0..1000, flush period 1-50 ms, plain or pickle mode, 1-300 "
+             "lines of 5 bytes .. 5x iobuf (around iobuf +-2), bursts separated by pauses; completion by unique sentinel lines. Oracle: the received "
+             "stream split on LF (plain) / parsed as [4-byte BE length][pickle] frames each decoding to one (name,(ts,value)) (pickle) is a "
+             "SUBSEQUENCE of the hand-off sequence (order kept, nothing torn, merged, duplicated or invented, each line terminated once) and "
+             "#handed - #received == slow_conn drop counter delta. Non-trivial: (writer) a write straddling the buffer boundary AND a write longer "
+             "AND one shorter than the buffer; (conn) a line longer and a line shorter than iobuf with a pause or a run longer than the flush period. "
+             "Distinct = hash(parameters, op/length sequence)."),
+    "level_text": "Model-based testing of the buffered writer under every generated write/flush interleaving, plus generated end-to-end runs over real TCP with an exact subsequence + drop-accounting oracle; holds on all generated.",
+    "level_note": "In the end-to-end layer the write/flush interleavings come from real timers and the scheduler; the writer layer covers them systematically. Pickle mode draws only representable lines (others are C16's subject). direction=out is recorded, not asserted.",
+    "technique": "property-based testing (rapid): state-machine model of the writer; end-to-end subsequence/accounting oracle over loopback TCP with sentinel completion",
+    "assumptions": ["loopback TCP delivers bytes in order", "one goroutine writes a connection in FIFO order (sentinel completion)"],
+    "quick": [R("TestPropBufWriter", 20000, steps=40), R("TestPropHealthyConn", 120)],
+    "thorough": [R("TestPropBufWriter", 300000, shards=4, steps=60, timeout=2400), R("TestPropHealthyConn", 500, shards=12, timeout=2400)],
+}
